@@ -199,6 +199,28 @@ class SessTrace:
                          j(self.tx), j(self.rx), j(self.ck)] + steps)
 
 
+def sendq_order_ambiguous(trace):
+    """The context's send queue is ordered by expiry time; the model keeps submission order.
+    They differ only when two Confirmables are in flight and one was retransmitted (NSTART > 1):
+    then the order in which a disconnect NACKs them is time-dependent and the exact acceptor
+    does not apply to the client session (counted in the evidence, the oracle still runs)."""
+    inflight = set()
+    for t in trace.split():
+        if t.startswith("c.tx:"):
+            p = tag_parse(t.split(":")[1])
+            if p and p[0] == 0:
+                inflight.add(p[1])
+        elif t.startswith("c.dl:"):
+            p = tag_parse(t[5:])
+            if p and p[0] in (2, 3):
+                inflight.discard(p[1])
+        elif t.startswith("c.nack:C"):
+            inflight.discard(int(t.split(":")[1][1:]))
+        elif t.startswith("c.rt:") and len(inflight) >= 2:
+            return True
+    return False
+
+
 def sessions_of(case, trace):
     """-> list of (name, SessTrace) for the client session and every server session for the
     client's address, in model form"""
@@ -228,6 +250,8 @@ def sessions_of(case, trace):
         if srv:
             srv.cur = None
         for t in toks:
+            if t.startswith("n.inj:") and t.endswith(":0"):
+                continue          # an empty datagram: recv() returns 0, nothing is dispatched
             if t.startswith("n.rv:") or t.startswith("n.inj:"):
                 to = t.split(":")[1]
                 if cli:
@@ -461,9 +485,55 @@ SCHEDULES = [
 ]
 
 
+def gen_random(r, n):
+    """random loss / duplication / reordering / time / injection / release, any credentials"""
+    cases = []
+    cm = cred_matrix()
+    inj_pool = ["is@req9", "ic@rsp1", "ic@rst1", "in@req8", "in@hello", "is@hello", "ic@req7", "is@rsp1",
+                "ic1603030000", "is17fefd0001000000000001000401020304", "ic17fefd00010000000000010001aa",
+                "is15fefd000000000000000100020228", "ic15fefd000000000000000100020228", "is", "ic40"]
+    for i in range(n):
+        ops = ["C"]
+        nreq = 0
+        ln = r.choice([6, 10, 16, 24, 40, 60])
+        pinj = r.choice([0.02, 0.04, 0.12])
+        ploss = r.choice([0.0, 0.05, 0.16, 0.3])
+        for _ in range(ln):
+            x = r.random()
+            if x < 0.18 and nreq < 14:
+                nreq += 1
+                ops.append(("qc%d" if r.random() < 0.7 else "qn%d") % nreq)
+            elif x < 0.18 + pinj:
+                ops.append(r.choice(inj_pool))
+            elif x < 0.22 + pinj:
+                ops.append("rel" if r.random() < 0.3 else "o")
+            elif x < 0.36 + pinj:
+                ops.append("t%d" % r.choice([1, 500, 1000, 1000, 1000, 2000, 3000]))
+            elif x < 0.50 + pinj:
+                ops.append("a")
+            else:
+                y = r.random()
+                ops.append("x" if y < ploss else ("u" if y < ploss * 1.6 else "d"))
+        if r.random() < 0.5:
+            ops.append("a")
+        if r.random() < 0.3:
+            ops.insert(1, "ns%d" % r.choice([1, 2, 3]))
+        nm, kw = ("match", {}) if r.random() < 0.6 else r.choice(cm)
+        force = []
+        if r.random() < 0.15:
+            force = [(r.choice("cs"), r.choice(["hs", "hs", "tx", "rx", "ck"]), r.randrange(0, 8),
+                      r.choice([0, -28, -52, -32, -12, -19, -15, -16, -49, -24, -43, -10, -328, -110, -319, -54, -53, -1, -9]))]
+            if force[0][1] == "ck":
+                force = [("s",) + force[0][1:]]
+        c = Case(seed=r.randrange(1, 1 << 30), fd0=r.randrange(2), ops=ops, force=force, **kw)
+        c.kind = "random/" + nm + ("+force" if force else "")
+        cases.append(c)
+    return cases
+
+
 def gen_cases(r, n, tier):
-    """seeded cases: credential matrix x schedules, lossy / duplicating schedules, injections,
-    forced GnuTLS return codes"""
+    """structured cases: credential matrix x schedules, injections, forced GnuTLS return codes;
+    plus n random ones"""
     cases = []
     cm = cred_matrix()
     # 1. full credential matrix with the plain and the queueing schedule
@@ -478,41 +548,7 @@ def gen_cases(r, n, tier):
             c = Case(seed=7, fd0=fd0, ops=["C"] + ops)
             c.kind = "sched/" + sn
             cases.append(c)
-    # 3. random loss / duplication / reordering / time during and after the handshake
-    for i in range(n):
-        ops = ["C"]
-        nreq = 0
-        ln = r.choice([6, 10, 16, 24, 40])
-        for _ in range(ln):
-            x = r.random()
-            if x < 0.18 and nreq < 12:
-                nreq += 1
-                ops.append(("qc%d" if r.random() < 0.7 else "qn%d") % nreq)
-            elif x < 0.50:
-                ops.append("d")
-            elif x < 0.58:
-                ops.append("x")
-            elif x < 0.66:
-                ops.append("u")
-            elif x < 0.70:
-                ops.append("o")
-            elif x < 0.84:
-                ops.append("a")
-            elif x < 0.94:
-                ops.append("t%d" % r.choice([1, 500, 1000, 1000, 1000, 2000]))
-            elif x < 0.97:
-                ops.append(r.choice(["is@req9", "ic@rsp1", "ic@rst1", "in@req8", "in@hello", "is@hello",
-                                     "ic1603030000", "is17fefd0001000000000001000401020304"]))
-            else:
-                ops.append("rel")
-        if r.random() < 0.5:
-            ops.append("a")
-        if r.random() < 0.3:
-            ops.insert(1, "ns%d" % r.choice([1, 2, 3]))
-        nm, kw = ("match", {}) if r.random() < 0.6 else r.choice(cm)
-        c = Case(seed=r.randrange(1, 1 << 30), fd0=r.randrange(2), ops=ops, **kw)
-        c.kind = "random/" + nm
-        cases.append(c)
+    cases += gen_random(r, n)
     # 4. injected cleartext CoAP before / during / after the handshake, both directions
     inj = ["is@req9", "in@req8", "ic@rsp1", "ic@rst1", "is@hello", "in@hello"]
     for k, pos in enumerate([0, 1, 2, 3, 5, 8, 11, 12, 13, 99]):
